@@ -38,6 +38,9 @@ func runDownFamily(s *Sim, prop string) {
 	// two streams of one session of one node (same source node id and session id, different stream ids)
 	bc.SharedSessions = t.Bool("shared-sessions", 1, 4)
 	y := newSys(s, bc)
+	// a connection with a datagram side: the chunks of unreliable downstreams arrive there, read and
+	// decoded by a goroutine of their own beside the reliable read path
+	s.Net.Unrel = t.Bool("datagram-side", 1, 3)
 	y.ScribbleReads = t.Bool("application-edits-returned-chunks", 1, 4)
 	if t.Bool("json", 1, 4) {
 		y.Enc = iscp.EncodingNameJSON
